@@ -1,6 +1,8 @@
 package main
 
 import (
+	"fmt"
+	"os"
 	"go/types"
 	"strings"
 
@@ -63,7 +65,15 @@ func computeRemoval(a *An, kf *kqFacts) {
 				cl = true
 			}
 		}
-		if del && cl && !containsFn(a.Ro.Readers, fn) {
+		// a removal function only removes: a function that also delivers events (the reader's per-event handler, the
+		// directory re-scan) is a caller of removal functions, not one of them
+		snd := false
+		for _, v := range w.Visits {
+			if cal := visitCallee(v); cal != nil && a.Ro.isSendEvent(cal) {
+				snd = true
+			}
+		}
+		if del && cl && !snd && !containsFn(a.Ro.Readers, fn) {
 			kf.removal[fn] = true
 		}
 	}
@@ -357,10 +367,9 @@ func c17Pairing(a *An, kf *kqFacts) {
 		found := false
 		for _, v := range rw.Visits {
 			call, ok := v.Instr.(*ssa.Call)
-			if !ok || v.Ctx.Parent != nil || !kf.removal[v.Ctx.calleeOf(&call.Call)] {
+			if !ok || kf.inRemoval(v.Ctx) || !kf.removal[v.Ctx.calleeOf(&call.Call)] {
 				continue
 			}
-			found = true
 			var subj string
 			for _, c := range v.Cond {
 				for _, l := range c {
@@ -369,7 +378,14 @@ func c17Pairing(a *An, kf *kqFacts) {
 					}
 				}
 			}
-			okAll := subj != ""
+			if os.Getenv("VERIF_DEBUG") != "" {
+				fmt.Fprintf(os.Stderr, "C17.2 removal call %s under %s\n", a.P.instrPos(call), stripIDs(v.Cond.String()))
+			}
+			if subj == "" {
+				continue // a removal for another reason (not decided by the event's operation)
+			}
+			found = true
+			okAll := true
 			var why []string
 			for _, name := range []string{"Rename", "Remove"} {
 				var ctx DNF
